@@ -124,7 +124,11 @@ def runModel (j : Json) : Except String Json := do
   let ptext := match parsed with
     | some g => Json.str (textTo g.format)
     | none => Json.null
-  return Json.mkObj [("init", h0.str), ("parse_text", ptext), ("steps", Json.arr steps)]
+  -- the hypotheses of theorem C02_read_meaning, evaluated on the tree that was read
+  let initReady := match parsed with
+    | some _ => Json.bool (MontePyVerif.C02.ready cg0.hs && MontePyVerif.C02.chainOK cg0.chain cg0.hs.fmt)
+    | none => Json.null
+  return Json.mkObj [("init", h0.str), ("parse_text", ptext), ("init_ready", initReady), ("steps", Json.arr steps)]
 
 def runDenote (j : Json) : Except String Json := do
   let cs ← textOf (← (← j.getObjVal? "text").getStr?)
